@@ -42,6 +42,10 @@ func c20Nest(comps []f1testing.ScenarioFn, r interface{ IntN(int) int }, depth i
 	var parts []f1testing.ScenarioFn
 	maxd := depth
 	for i := 0; i < len(comps); {
+		if r.IntN(4) == 0 {
+			// a group that combines nothing (a feature switched off, say): it contributes nothing and changes nothing
+			parts = append(parts, f1.CombineScenarios())
+		}
 		n := 1 + r.IntN(len(comps)-i)
 		if n == len(comps) {
 			n = len(comps) - 1
